@@ -288,6 +288,6 @@ func TestC14(t *testing.T) {
 			{Op: "challenge", Label: c}, {Op: "scalar", Label: m, S: &one}, {Op: "challenge", Label: c}}, MutKind: "label"})
 		s.Rec.Label("forced_digest_in_[r,2^253)")
 	}
-	c14Part.Run(s, hx.PerShard(hx.Pick(64000, 800000)))
+	c14Part.Run(s, hx.PerShard(hx.Pick(64000, 4000000)))
 	c14Part.RunConcurrent(s, 8, hx.Pick(500, 8000))
 }
